@@ -50,7 +50,7 @@ CHECKS = {
          "10 instance kinds (Router / Group x none / WithRecovery / WithStatusRecovery; New inheriting and overriding; Add with/without own option) x all sequences of <=2 events with 7 panic values and <=3 events with 2 values (thorough: 3 and 4) over 18 panic sites + 3 normal requests, one of which issues a second request from inside its handler: containment, exactly-once delivery of the identical value to the function in force, continued service with own parameters at handler entry and exit, pass-through without the option.",
          "Runs on the overlay build so that the context pool is a drainable LIFO free list (each sequence starts from an empty pool).", "4/C16"),
  "C18": ("SI", "explicit-state BFS over registration histories (with Use) with and without WithTrace, TRACE probes and Allow views in every state; exhaustive enumeration of request shapes for the Trace helper on a wire-semantics writer",
-         "Every history over the C04 alphabet plus Use(A) up to depth 4 (quick) / 4 (thorough, larger probe set): with the option TRACE on any path (routes, non-routes, '*', '') is answered by the configured handler wrapped only in the Use middlewares, TRACE is in every Allow view and cannot be registered; without it TRACE is registrable and otherwise 404/405. Helper: all pairs of strings over {a < > & \" ' NUL 0xc3}^<=2 in path, header, method and body, body flag both ways: 200, Content-Type as sent, body = html-escaped dump.",
+         "Every history over the C04 alphabet plus Use(A) up to depth 4 (quick) / 5 (thorough): with the option TRACE on any path (routes, non-routes, '*', '') is answered by the configured handler wrapped only in the Use middlewares, TRACE is in every Allow view and cannot be registered; without it TRACE is registrable and otherwise 404/405. Helper: all pairs of strings over {a < > & \" ' NUL 0xc3}^<=2 in path, header, method and body, body flag both ways: 200, Content-Type as sent, body = html-escaped dump.",
          "The TRACE handler used in the histories is the bundled helper; httputil.DumpRequest + html.EscapeString is the stated reference.", "4/C18"),
  "C19": ("S", "explicit-state BFS over programs of facade calls executed twice - as written through Prefix/nested Prefix/Resource objects and desugared to plain Router calls - with a full differential oracle after every step",
          "Every program up to depth 4 (quick) / 6 (thorough) over 35 facade calls through 10 facade objects (empty prefix, prefix ending inside a parameter token, prefix without leading slash, nested prefixes, resources under prefixes), with and without WithTrace: identical Routes(), 105 dispatch observations incl. full middleware chains and Allow headers, URL results and panics.",
@@ -59,7 +59,7 @@ CHECKS = {
          "Every history up to depth 3 (quick) / 4 (thorough) over 3 keys x 24 edge-case values; after every step ~90 accessor results on present and absent keys: Count/Get/Exists/String/Range vs the map, Int/Uint/Bool/Float vs strconv in value and error text, not-exists error identity, every Must* with two defaults, emptiness of a context re-obtained from the pool after being dirtied.",
          "Finite value set; runs on the overlay build for the deterministic pool.", "4/C20"),
  "C17": ("S", "explicit-state BFS over registration histories; in every state every member of a rejected-call set is executed on a replayed copy and the full observation vector is compared before/after; positive clauses by exhaustive enumeration of ordered pattern pairs",
-         "Every state over the C04 alphabet up to depth 2 (quick) / 4 (thorough), with and without WithTrace, x ~80 rejected Handle calls (duplicates, bad method lists in every position, malformed patterns sharing prefixes, rename-only patterns): must panic with an error value and leave Routes(), all dispatch outcomes, Allow headers and OPTIONS * unchanged. All ordered pairs over the dispatch pool and its renamed / '-'-flipped variants decide always-rejected and never-falsely-ambiguous.",
+         "Every state over the C04 alphabet up to depth 2 (quick) / 3 (thorough), with and without WithTrace, x several hundred rejected Handle calls (duplicates, bad method lists in every position, malformed patterns sharing prefixes, rename-only patterns): must panic with an error value and leave Routes(), all dispatch outcomes, Allow headers and OPTIONS * unchanged. All ordered pairs over the dispatch pool and its renamed / '-'-flipped variants decide always-rejected and never-falsely-ambiguous.",
          "Bounded depth and pools; internal restructuring without observable effect is reported as a note only, as the property is about observable state.", "4/C17"),
  "C03": ("S", "explicit-state BFS over Handle/Remove/Clean histories on the real router, dedup on a reflective dump of its private state, reference table + resolver as oracle on every state",
          "Every history over the C03 alphabet up to the depth bound (quick 3, thorough 5), from every reachable deduplicated implementation state, probed with every method on witness and first-byte-variant paths; Routes(), dispatch, frame condition and no-panic are checked in every state against an independent table model.",
